@@ -9,7 +9,62 @@ from .chanprog import ChanProg
 from .chanprog import default_channel as ch
 
 PID = "C02"
-SCENARIOS = {"prog": ChanProg}
+class CreateRaceScn:
+    """channels created concurrently by several user threads must stay separate conversations"""
+
+    @staticmethod
+    def scenario(w, P):
+        from .common import Session
+
+        S = Session(w, P.get("transport", "popen"), "thread")
+
+        def main():
+            gw = S.open()
+            w.exploring = True
+
+            def user(i):
+                try:
+                    if P["how"] == "remote_exec":
+                        ch = gw.remote_exec("for k in range(2):\n    channel.send((%d, k))" % i)
+                    else:
+                        ctl = gw.remote_exec("c = channel.receive()\nfor k in range(2):\n    c.send((%d, k))\nc.close()" % i)
+                        ch = gw.newchannel()
+                        ctl.send(ch)
+                    got = []
+                    try:
+                        while True:
+                            got.append(ch.receive(timeout=20))
+                    except EOFError:
+                        pass
+                    w.observe("user", i, ch.id, got)
+                except BaseException as e:  # noqa: BLE001
+                    w.observe("user-exc", i, type(e).__name__, str(e)[:80])
+
+            for i in range(P["threads"]):
+                S.user(user, f"user{i}", (i,))
+            S.join_users()
+            w.exploring = False
+            w.observe("joined")
+            S.group.terminate(timeout=2.0)
+
+        S.main(main)
+        return S
+
+    @staticmethod
+    def oracle(w, S, P):
+        obs = w.obs
+        out = tuple(sorted((e[1], e[2]) for e in obs if e[0] == "user"))
+        if ("joined",) not in obs:
+            return ("c02:hang", f"user threads never finished: {obs} blocked={w.blocked_at_end}"), out
+        for e in obs:
+            if e[0] == "user-exc":
+                return ("c02:unexpected-exception", f"{e}"), out
+            if e[0] == "user" and e[3] != [(e[1], 0), (e[1], 1)]:
+                return ("c02:leak", f"thread {e[1]} created its own channel (id {e[2]}) but received {e[3]}; all: {[x for x in obs if x[0] == 'user']}"), out
+        return None, out
+
+
+SCENARIOS = {"prog": ChanProg, "create": CreateRaceScn}
 
 
 def programs(tier):
@@ -83,6 +138,15 @@ def run(tier: str, only=None) -> int:
                 harness.run_exploration(rep, PID, name + "/sync", ChanProg, P, b_sync, max_execs=cap, min_outcomes=mo)
             if transport == "popen":
                 harness.run_exploration(rep, PID, name + "/stmt", ChanProg, P, {"ps": 0, "pl": 1, "free": 0} if big and tier == "quick" else b_stmt, stmt=stmt, max_execs=cap)
+    # channels created concurrently
+    fstmt = harness.stmt_mask(lambda m, q, l: m == "gateway_base" and (q.startswith("ChannelFactory.") or q.startswith("Channel.__init__")))
+    for how in ("remote_exec", "newchannel"):
+        name = f"create/{how}"
+        if only and only not in name:
+            continue
+        P = {"how": how, "threads": 2}
+        harness.run_exploration(rep, PID, name + "/sync", CreateRaceScn, P, {"ps": 2, "free": 0} if tier == "quick" else {"ps": 2, "free": 1}, max_execs=cap)
+        harness.run_exploration(rep, PID, name + "/stmt", CreateRaceScn, P, {"ps": 0, "pl": 2, "free": 0}, stmt=fstmt, max_execs=cap)
     # read chunking as an environment deviation
     P = {"transport": "popen", "backend": "thread", "channels": [ch(up=1, down=2)], "size": 3, "short_reads": True}
     if not only or "chunk" in only:
